@@ -472,117 +472,269 @@ Section BackedSentinel.
   Qed.
 End BackedSentinel.
 
+Ltac lsimp := cbn [a_store a_bal with_store l_pillars l_dep l_producing l_deleg l_legacy set_pillars set_dep set_producing set_deleg set_legacy upd_pillar
+                      l_owner l_amount l_reg l_revoke l_producer l_reward l_pct_block l_pct_deleg l_type] in *.
+
+Lemma tcount_nonneg {V} (f : V -> bool) (t : tab V) : 0 <= tcount f t.
+Proof. unfold tcount. induction t as [|[k v] r IH]; cbn [tsum]; [lia|]. destruct (f v); lia. Qed.
+
 Section BackedPillar.
   Variable dc : dsend -> option Z.
   Variable name_ok : bytes -> bool.
+  Variable legacy_key : bytes -> bytes -> bytes -> option bytes.
   Variable P : Z.                                  (* constants.PillarStakeAmount *)
 
   Definition pillar_lookup (lf : send -> lenv) (s : send) : lres lstore :=
     let sl := sel_of (s_data s) in
-    if bytes_eqb sl Sel_pillars_Revoke then LFound (pillar_revoke_receive name_ok (lf s))
+    if bytes_eqb sl Sel_pillars_Register then LFound (register_receive name_ok (lf s))
+    else if bytes_eqb sl Sel_pillars_RegisterLegacy then LFound (legacy_receive name_ok legacy_key (lf s))
+    else if bytes_eqb sl Sel_pillars_Revoke then LFound (pillar_revoke_receive name_ok (lf s))
+    else if bytes_eqb sl Sel_pillars_UpdatePillar then LFound (update_pillar_receive name_ok (lf s))
+    else if bytes_eqb sl Sel_pillars_Delegate then LFound (delegate_receive name_ok)
+    else if bytes_eqb sl Sel_pillars_Undelegate then LFound undelegate_receive
     else if bytes_eqb sl Sel_common_DepositQsr then LFound pillar_deposit_receive
     else if bytes_eqb sl Sel_common_WithdrawQsr then LFound pillar_withdraw_receive
     else LNotFound.
 
+  Definition penv_ok (e : lenv) : Prop :=
+    lenv_ok e /\ c_PillarStake e = P /\ 0 <= c_PillarQsrBase e /\ 0 <= c_PillarQsrIncr e.
+
   Lemma pillar_revoke_validate_no_panic s : data_ok (s_data s) -> pillar_revoke_validate name_ok s <> VPanic.
   Proof. intros Hd. unfold pillar_revoke_validate. validate_args Sel_pillars_Revoke [TString]. Qed.
+  Lemma register_validate_no_panic e s : data_ok (s_data s) -> register_validate name_ok e s <> VPanic.
+  Proof.
+    intros Hd. unfold register_validate, reg_static.
+    validate_args Sel_pillars_Register [TString; TAddress; TAddress; TUint 8; TUint 8].
+  Qed.
+  Lemma legacy_validate_no_panic e s : data_ok (s_data s) -> legacy_validate name_ok legacy_key e s <> VPanic.
+  Proof.
+    intros Hd. unfold legacy_validate, reg_static.
+    destruct (unpack_args Sel_pillars_RegisterLegacy [TString; TAddress; TAddress; TUint 8; TUint 8; TString; TString] (s_data s)) as [vs| |] eqn:E.
+    - apply unpack_args_shape in E; shapes. cbn [r_name r_pb r_pd]. ifs. destruct (legacy_key _ _ _); ifs.
+    - discriminate.
+    - exfalso; revert E; apply unpack_args_no_panic; [wf_tys | vm_compute; discriminate | exact Hd].
+  Qed.
+  Lemma update_pillar_validate_no_panic e s : data_ok (s_data s) -> update_pillar_validate name_ok e s <> VPanic.
+  Proof.
+    intros Hd. unfold update_pillar_validate, reg_static.
+    validate_args Sel_pillars_UpdatePillar [TString; TAddress; TAddress; TUint 8; TUint 8].
+  Qed.
+  Lemma delegate_validate_no_panic s : data_ok (s_data s) -> delegate_validate name_ok s <> VPanic.
+  Proof. intros Hd. unfold delegate_validate. validate_args Sel_pillars_Delegate [TString]. Qed.
+  Lemma undelegate_validate_no_panic s : undelegate_validate s <> VPanic.
+  Proof. unfold undelegate_validate. validate_empty Sel_pillars_Undelegate. Qed.
 
   (* amounts are non-negative, an active pillar holds exactly the pillar stake *)
+  Definition pillar_entry_ok (p : pillar) : Prop := 0 <= l_amount p /\ (l_revoke p = 0 -> l_amount p = P).
   Definition J_pillar (a : cacct lstore) : Prop :=
-    tall (fun p => 0 <= l_amount p /\ (l_revoke p = 0 -> l_amount p = P)) (l_pillars (a_store a)) /\
-    tall (fun v => 0 <= v) (l_dep (a_store a)).
+    tall pillar_entry_ok (l_pillars (a_store a)) /\ tall (fun v => 0 <= v) (l_dep (a_store a)).
+  Definition K_pillar (a : cacct lstore) : Prop :=
+    tnodup (l_pillars (a_store a)) /\ tnodup (l_dep (a_store a)) /\ forall z, liab_pillar (a_store a) z <= bal_get (a_bal a) z.
+  Definition JK_pillar (a : cacct lstore) : Prop := J_pillar a /\ K_pillar a.
 
-  Lemma pillar_table_ok lf : 0 <= P -> (forall s, lenv_ok (lf s) /\ c_PillarStake (lf s) = P) ->
-    table_ok lstore dc J_pillar (pillar_lookup lf).
+  (* checkAndConsumeQsr *)
+  Lemma consume_qsr_spec st owner req st' : consume_qsr st owner req = Some st' -> 0 <= req ->
+    tall (fun v => 0 <= v) (l_dep st) -> tnodup (l_dep st) ->
+    l_pillars st' = l_pillars st /\ tall (fun v => 0 <= v) (l_dep st') /\ tnodup (l_dep st') /\
+    tsum (fun v => v) (l_dep st') <= tsum (fun v => v) (l_dep st) - req.
+  Proof.
+    unfold consume_qsr. intros H Hr Ha Hu.
+    change (match tget (l_dep st) owner with Some v => v | None => 0 end) with (told (fun v : Z => v) (l_dep st) owner) in H.
+    set (dep := told (fun v : Z => v) (l_dep st) owner) in *.
+    destruct (dep <? req) eqn:E; [discriminate|]. inversion H; subst st'. clear H. lsimp.
+    split; [reflexivity|]. destruct (dep - req =? 0) eqn:E0.
+    - split; [apply tall_tdel; exact Ha|]. split; [apply tnodup_tdel; exact Hu|]. rewrite tsum_tdel by exact Hu. fold dep. lia.
+    - split; [apply tall_tput; [exact Ha | apply u256_nonneg]|]. split; [apply tnodup_tput; exact Hu|].
+      rewrite tsum_tput by exact Hu. fold dep. pose proof (u256_le (dep - req)). lia.
+  Qed.
+
+  (* checkAndRegisterPillar *)
+  Lemma check_and_register_spec e st p owner ty st1 : check_and_register name_ok e st p owner ty = inl st1 ->
+    tget (l_pillars st) (r_name p) = None /\ l_dep st1 = l_dep st /\ l_legacy st1 = l_legacy st /\
+    exists pl, l_pillars st1 = tput (l_pillars st) (r_name p) pl /\ l_amount pl = u256 (c_PillarStake e) /\ l_revoke pl = 0.
+  Proof.
+    unfold check_and_register. destruct (negb (name_ok (r_name p))); [discriminate|].
+    destruct (_ || _); [discriminate|]. destruct (tget (l_pillars st) (r_name p)) eqn:Eg; [discriminate|].
+    destruct (negb _); [discriminate|]. intros H; inversion H; subst st1. lsimp.
+    repeat split. eexists. split; [reflexivity|]. split; reflexivity.
+  Qed.
+
+  Lemma pillar_table_ok lf : 0 <= P < two256 -> (forall s, penv_ok (lf s)) ->
+    table_ok lstore dc JK_pillar (pillar_lookup lf).
   Proof.
     intros HP He. split.
-    - intros a a' HJ Hs _. unfold J_pillar in *. rewrite Hs. exact HJ.
+    - intros a a' ((HJ1 & HJ2) & (Hu & Hu2 & Hb)) Hs Hbal. unfold JK_pillar, J_pillar, K_pillar. rewrite Hs.
+      split; [split; [exact HJ1 | exact HJ2] | split; [exact Hu | split; [exact Hu2 | intros z; rewrite Hbal; apply Hb]]].
     - intros s. unfold pillar_lookup. cbv zeta. repeat destruct (bytes_eqb _ _); discriminate.
     - intros s m a El HJ Hn Hs. assert (Hd : data_ok (s_data s)) by (split; apply Hs).
       destruct (He s) as ((_ & _ & _ & _ & Hw & _) & _).
       unfold pillar_lookup in El. cbv zeta in El.
       repeat (match type of El with context [bytes_eqb ?x ?y] => destruct (bytes_eqb x y) end;
               [inversion El; subst m; clear El|]); try discriminate.
+      + unfold register_receive. pose proof (register_validate_no_panic (lf s) s Hd).
+        destruct (register_validate name_ok (lf s) s); [|discriminate|contradiction].
+        destruct (check_and_register _ _ _ _ _ _); [|discriminate]. destruct (consume_qsr _ _ _); discriminate.
+      + unfold legacy_receive. pose proof (legacy_validate_no_panic (lf s) s Hd).
+        destruct (legacy_validate name_ok legacy_key (lf s) s) as [[p k]| |]; [|discriminate|contradiction].
+        destruct (tget _ _); [|discriminate].
+        destruct (check_and_register _ _ _ _ _ _); [|discriminate]. destruct (consume_qsr _ _ _); discriminate.
       + unfold pillar_revoke_receive. pose proof (pillar_revoke_validate_no_panic s Hd).
         destruct (pillar_revoke_validate name_ok s); [|discriminate|contradiction].
         destruct (tget _ _) as [p|]; [|discriminate]. destruct (negb _); [discriminate|]. destruct (negb _); [discriminate|].
         pose proof (revoke_window_no_panic (c_PillarLock (lf s)) (c_PillarRevoke (lf s)) (l_reg p) (l_now (lf s)) Hw).
         destruct (revoke_window _ _ _ _) as [[[|] t]|]; [discriminate|discriminate|contradiction].
+      + unfold update_pillar_receive. pose proof (update_pillar_validate_no_panic (lf s) s Hd).
+        destruct (update_pillar_validate name_ok (lf s) s); [|discriminate|contradiction].
+        destruct (tget _ _); [|discriminate]. ifs.
+      + unfold delegate_receive. pose proof (delegate_validate_no_panic s Hd).
+        destruct (delegate_validate name_ok s); [|discriminate|contradiction].
+        destruct (tget _ _); [|discriminate]. ifs.
+      + unfold undelegate_receive. pose proof (undelegate_validate_no_panic s).
+        destruct (undelegate_validate s); [|discriminate|contradiction]. destruct (tget _ _); discriminate.
       + unfold pillar_deposit_receive. pose proof (deposit_qsr_validate_no_panic s).
         destruct (deposit_qsr_validate s); [discriminate|discriminate|contradiction].
       + unfold pillar_withdraw_receive. pose proof (withdraw_qsr_validate_no_panic s).
         destruct (withdraw_qsr_validate s); [|discriminate|contradiction]. destruct (Z.eqb _ 0); discriminate.
-    - intros s m a a' ds El (HJ1 & HJ3) Hn Hs Em. destruct (He s) as ((_ & _ & _ & _ & _ & Hnow) & HPs).
+    - intros s m a a' ds El ((HJ1 & HJ3) & (Hu & Hu2 & Hb)) Hn Hs Em.
+      destruct (He s) as ((_ & _ & _ & _ & _ & Hnow) & HPs & Hbase & Hincr).
       unfold pillar_lookup in El. cbv zeta in El.
       pose proof (credited_nonneg lstore a s Hn Hs) as Hnc.
+      assert (Hfin : forall st' ds', nonneg lstore (with_store (credited lstore a s) st') -> Forall ds_ok ds' ->
+                 (forall a'', apply_all lstore dc (with_store (credited lstore a s) st') ds' = ASOk a'' -> JK_pillar a'') ->
+                 a_cursor (with_store (credited lstore a s) st') = a_cursor a + 1 /\
+                 nonneg lstore (with_store (credited lstore a s) st') /\ Forall ds_ok ds' /\
+                 (forall a'', apply_all lstore dc (with_store (credited lstore a s) st') ds' = ASOk a'' -> JK_pillar a'')).
+      { intros st' ds' H1 H2 H3. split; [reflexivity | split; [exact H1 | split; [exact H2 | exact H3]]]. }
       repeat (match type of El with context [bytes_eqb ?x ?y] => destruct (bytes_eqb x y) end;
               [inversion El; subst m; clear El|]); try discriminate.
-      + unfold pillar_revoke_receive in Em. destruct (pillar_revoke_validate name_ok s) as [name| |]; try discriminate.
+      + (* Register *)
+        unfold register_receive in Em. destruct (register_validate name_ok (lf s) s) as [p| |] eqn:Ev; try discriminate.
         rewrite credited_store in Em.
-        destruct (tget (l_pillars (a_store a)) name) as [p|] eqn:Eg; [|discriminate].
-        destruct (negb _); [discriminate|]. destruct (negb _); [discriminate|].
-        destruct (revoke_window _ _ _ _) as [[[|] t]|]; try discriminate. inversion Em; subst a' ds. clear Em.
-        assert (Hds : Forall ds_ok [{| d_to := l_owner p; d_amount := c_PillarStake (lf s); d_zts := ZtsZnn; d_data := [] |}]).
-        { constructor; [|constructor]. split; cbn; [lia | intros _; exact zts_znn_not_zero]. }
-        split; [|split; [|split]]; auto.
-        intros a'' Ea. unfold J_pillar.
-        rewrite (apply_all_store lstore dc _ _ a'' (with_store_nonneg lstore _ _ Hnc) Hds Ea).
-        cbn [a_store with_store l_pillars l_dep]. split; [|exact HJ3].
-        apply tall_tput; [exact HJ1|]. cbn. split; [lia|].
-        (* the revoke time is the frontier time; if that is 0 the entry still reads as active with amount 0 = P only if P = 0 *)
-        intros Hz. lia.
-      + unfold pillar_deposit_receive in Em. destruct (deposit_qsr_validate s); try discriminate.
-        inversion Em; subst a' ds. split; [|split; [|split]]; auto.
-        intros a'' Ea. inversion Ea; subst a''. unfold J_pillar. cbn [a_store with_store l_pillars l_dep].
-        split; [exact HJ1|]. apply tall_tput; [exact HJ3 | apply u256_nonneg].
-      + unfold pillar_withdraw_receive in Em. destruct (withdraw_qsr_validate s); try discriminate.
+        destruct (check_and_register name_ok (lf s) (a_store a) p (s_from s) PillarTypeNormal) as [st1|] eqn:Ec; [|discriminate].
+        destruct (consume_qsr st1 (s_from s) _) as [st2|] eqn:Eq; [|discriminate].
+        inversion Em; subst a' ds. clear Em.
+        destruct (check_and_register_spec _ _ _ _ _ _ Ec) as (Hnone & Hd1 & _ & pl & Hp1 & Hamt & Hrev).
+        set (cost := c_PillarQsrIncr (lf s) * active_normal (a_store a) + c_PillarQsrBase (lf s)) in *.
+        assert (Hcost : 0 <= cost) by (subst cost; pose proof (tcount_nonneg (fun p : pillar => (l_revoke p =? 0) && (l_type p =? PillarTypeNormal)) (l_pillars (a_store a))); unfold active_normal; nia).
+        destruct (consume_qsr_spec st1 (s_from s) cost st2 Eq Hcost) as (Hp2 & Ha2 & Hu2' & Hsum); [rewrite Hd1; exact HJ3 | rewrite Hd1; exact Hu2|].
+        assert (Hz : s_zts s = ZtsZnn /\ s_amount s = P).
+        { unfold register_validate in Ev. destruct (unpack_args _ _ _); try discriminate. repeat (vcase Ev).
+          all: match goal with E : (negb (bytes_eqb _ ZtsZnn) || _) = false |- _ =>
+                 apply orb_false_iff in E; destruct E as (E & E2); apply negb_false_iff, bytes_eqb_eq in E;
+                 apply negb_false_iff in E2; split; [exact E | lia] end. }
+        destruct Hz as (Hz & Hamts).
+        assert (Hds : Forall ds_ok [burn_qsr cost]).
+        { constructor; [|constructor]. split; cbn; [exact Hcost | intros _; exact zts_qsr_not_zero]. }
+        apply Hfin; [apply with_store_nonneg; exact Hnc | exact Hds|].
+        intros a'' Ea. destruct (apply_all_one lstore dc _ a'' _ (with_store_nonneg lstore _ _ Hnc) (Forall_inv Hds) Ea) as (Hst & _ & Hg).
+        unfold JK_pillar, J_pillar, K_pillar. rewrite Hst. cbn [a_store with_store]. rewrite Hp2, Hp1.
+        rewrite HPs in Hamt. rewrite (u256_small P HP) in Hamt.
+        split; [split; [apply tall_tput; [exact HJ1 | split; lia] | exact Ha2]|].
+        split; [apply tnodup_tput; exact Hu|]. split; [exact Hu2'|].
+        intros z. rewrite Hg. cbn [a_bal with_store burn_qsr d_zts d_amount].
+        unfold liab_pillar. rewrite Hp2, Hp1. rewrite tsum_tput by exact Hu. rewrite (told_none _ _ _ Hnone). rewrite Hamt.
+        specialize (Hb z). unfold liab_pillar in Hb. rewrite credited_eq, Hz, Hamts. rewrite Hd1 in Hsum.
+        unfold zsel in *. destruct (bytes_eqb ZtsZnn z); destruct (bytes_eqb ZtsQsr z); lia.
+      + (* RegisterLegacy *)
+        unfold legacy_receive in Em. destruct (legacy_validate name_ok legacy_key (lf s) s) as [[p k]| |] eqn:Ev; try discriminate.
         rewrite credited_store in Em.
-        destruct (tget (l_dep (a_store a)) (s_from s)) as [v|] eqn:Eg; cbn in Em; [|discriminate].
-        destruct (v =? 0); [discriminate|]. inversion Em; subst a' ds. clear Em.
-        pose proof (HJ3 _ _ Eg) as Hv. cbn beta in Hv.
-        assert (Hds : Forall ds_ok [{| d_to := s_from s; d_amount := v; d_zts := ZtsQsr; d_data := [] |}]).
-        { constructor; [|constructor]. split; cbn; [exact Hv | intros _; exact zts_qsr_not_zero]. }
-        split; [|split; [|split]]; auto.
-        intros a'' Ea. unfold J_pillar.
-        rewrite (apply_all_store lstore dc _ _ a'' (with_store_nonneg lstore _ _ Hnc) Hds Ea).
-        cbn [a_store with_store l_pillars l_dep]. split; [exact HJ1|]. apply tall_tdel. exact HJ3.
-  Qed.
-  Definition K_pillar (a : cacct lstore) : Prop :=
-    tnodup (l_pillars (a_store a)) /\ tnodup (l_dep (a_store a)) /\ forall z, liab_pillar (a_store a) z <= bal_get (a_bal a) z.
-
-  Lemma pillar_backed_table_ok lf : 0 <= P -> (forall s, lenv_ok (lf s) /\ c_PillarStake (lf s) = P) ->
-    table_ok lstore dc (fun a => J_pillar a /\ K_pillar a) (pillar_lookup lf).
-  Proof.
-    intros HP He. apply table_ok_strengthen; [apply pillar_table_ok; assumption| |].
-    - intros a a' (Hu & Hu2 & Hb) Hs Hbal. unfold K_pillar. rewrite Hs. split; [exact Hu|]. split; [exact Hu2|].
-      intros z. rewrite Hbal. apply Hb.
-    - intros s m a a' ds a'' El (HJ1 & HJ3) (Hu & Hu2 & Hb) Hn Hs Em Hn' Hds Ea.
-      destruct (He s) as (_ & HPs).
-      unfold pillar_lookup in El. cbv zeta in El.
-      repeat (match type of El with context [bytes_eqb ?x ?y] => destruct (bytes_eqb x y) end;
-              [inversion El; subst m; clear El|]); try discriminate.
-      + (* revoke: the entry was active, so it held exactly the stake that is paid out *)
+        destruct (tget (l_legacy (a_store a)) k) as [cnt|]; [|discriminate].
+        set (st0 := set_legacy (a_store a) _) in *.
+        destruct (check_and_register name_ok (lf s) st0 p (s_from s) PillarTypeLegacy) as [st1|] eqn:Ec; [|discriminate].
+        destruct (consume_qsr st1 (s_from s) _) as [st2|] eqn:Eq; [|discriminate].
+        inversion Em; subst a' ds. clear Em.
+        destruct (check_and_register_spec _ _ _ _ _ _ Ec) as (Hnone & Hd1 & _ & pl & Hp1 & Hamt & Hrev).
+        assert (Hp0 : l_pillars st0 = l_pillars (a_store a)) by reflexivity.
+        assert (Hd0 : l_dep st0 = l_dep (a_store a)) by reflexivity.
+        rewrite Hp0 in *. rewrite Hd0 in *.
+        destruct (consume_qsr_spec st1 (s_from s) _ st2 Eq Hbase) as (Hp2 & Ha2 & Hu2' & Hsum); [rewrite Hd1; exact HJ3 | rewrite Hd1; exact Hu2|].
+        assert (Hz : s_zts s = ZtsZnn /\ s_amount s = P).
+        { unfold legacy_validate in Ev. destruct (unpack_args _ _ _); try discriminate. repeat (vcase Ev).
+          all: match goal with E : (negb (bytes_eqb _ ZtsZnn) || _) = false |- _ =>
+                 apply orb_false_iff in E; destruct E as (E & E2); apply negb_false_iff, bytes_eqb_eq in E;
+                 apply negb_false_iff in E2; split; [exact E | lia] end. }
+        destruct Hz as (Hz & Hamts).
+        assert (Hds : Forall ds_ok [burn_qsr (c_PillarQsrBase (lf s))]).
+        { constructor; [|constructor]. split; cbn; [exact Hbase | intros _; exact zts_qsr_not_zero]. }
+        apply Hfin; [apply with_store_nonneg; exact Hnc | exact Hds|].
+        intros a'' Ea. destruct (apply_all_one lstore dc _ a'' _ (with_store_nonneg lstore _ _ Hnc) (Forall_inv Hds) Ea) as (Hst & _ & Hg).
+        unfold JK_pillar, J_pillar, K_pillar. rewrite Hst. cbn [a_store with_store]. rewrite Hp2, Hp1.
+        rewrite HPs in Hamt. rewrite (u256_small P HP) in Hamt.
+        split; [split; [apply tall_tput; [exact HJ1 | split; lia] | exact Ha2]|].
+        split; [apply tnodup_tput; exact Hu|]. split; [exact Hu2'|].
+        intros z. rewrite Hg. cbn [a_bal with_store burn_qsr d_zts d_amount].
+        unfold liab_pillar. rewrite Hp2, Hp1. rewrite tsum_tput by exact Hu. rewrite (told_none _ _ _ Hnone). rewrite Hamt.
+        specialize (Hb z). unfold liab_pillar in Hb. rewrite credited_eq, Hz, Hamts. rewrite Hd1 in Hsum.
+        unfold zsel in *. destruct (bytes_eqb ZtsZnn z); destruct (bytes_eqb ZtsQsr z); lia.
+      + (* Revoke *)
         unfold pillar_revoke_receive in Em. destruct (pillar_revoke_validate name_ok s) as [name| |]; try discriminate.
         rewrite credited_store in Em.
         destruct (tget (l_pillars (a_store a)) name) as [p|] eqn:Eg; [|discriminate].
-        destruct (negb (l_revoke p =? 0)) eqn:Er; [discriminate|]. destruct (negb (bytes_eqb (l_owner p) (s_from s))); [discriminate|].
+        destruct (negb (l_revoke p =? 0)) eqn:Er; [discriminate|].
+        destruct (negb (bytes_eqb (l_owner p) (s_from s))); [discriminate|].
         destruct (revoke_window _ _ _ _) as [[[|] t]|]; try discriminate. inversion Em; try subst a'; try subst ds. clear Em.
-        pose proof (Forall_inv Hds) as Hd1.
-        destruct (apply_all_one lstore dc _ a'' _ Hn' Hd1 Ea) as (Hst & _ & Hg).
         destruct (HJ1 _ _ Eg) as (_ & Hact). assert (Hamt : l_amount p = P) by (apply Hact; lia).
-        unfold K_pillar. rewrite Hst. cbn [a_store with_store l_pillars l_dep].
+        assert (Hds : Forall ds_ok [{| d_to := l_owner p; d_amount := c_PillarStake (lf s); d_zts := ZtsZnn; d_data := [] |}]).
+        { constructor; [|constructor]. split; cbn; [lia | intros _; exact zts_znn_not_zero]. }
+        apply Hfin; [apply with_store_nonneg; exact Hnc | exact Hds|].
+        intros a'' Ea. destruct (apply_all_one lstore dc _ a'' _ (with_store_nonneg lstore _ _ Hnc) (Forall_inv Hds) Ea) as (Hst & _ & Hg).
+        unfold JK_pillar, J_pillar, K_pillar. rewrite Hst. lsimp.
+        split; [split; [apply tall_tput; [exact HJ1 | split; cbn; lia] | exact HJ3]|].
         split; [apply tnodup_tput; exact Hu|]. split; [exact Hu2|].
-        intros z. rewrite Hg. cbn [a_bal with_store d_zts d_amount].
-        unfold liab_pillar. cbn [l_pillars l_dep]. rewrite tsum_tput by exact Hu. rewrite (told_get _ _ _ _ Eg). cbn [l_amount].
+        intros z. rewrite Hg. cbn [d_zts d_amount].
+        unfold liab_pillar. lsimp. rewrite tsum_tput by exact Hu. rewrite (told_get _ _ _ _ Eg). cbn [l_amount upd_pillar].
         specialize (Hb z). unfold liab_pillar in Hb. pose proof (credited_ge lstore a s z Hs).
         unfold zsel in *. destruct (bytes_eqb ZtsZnn z); destruct (bytes_eqb ZtsQsr z); lia.
-      + (* deposit *)
+      + (* UpdatePillar: amount and revoke time of the entry are kept *)
+        unfold update_pillar_receive in Em. destruct (update_pillar_validate name_ok (lf s) s) as [p| |]; try discriminate.
+        rewrite credited_store in Em.
+        destruct (tget (l_pillars (a_store a)) (r_name p)) as [pl|] eqn:Eg; [|discriminate].
+        destruct (negb (bytes_eqb (l_owner pl) (s_from s))); [discriminate|].
+        destruct (negb (l_revoke pl =? 0)); [discriminate|].
+        destruct (_ && _); [discriminate|]. inversion Em; subst a' ds. clear Em.
+        apply Hfin; [apply with_store_nonneg; exact Hnc | constructor|].
+        intros a'' Ea. apply apply_all_nil in Ea. subst a''.
+        assert (Hpp : forall st1, l_pillars st1 = l_pillars (a_store a) -> l_dep st1 = l_dep (a_store a) ->
+                  JK_pillar (with_store (credited lstore a s) (set_pillars st1 (tput (l_pillars st1) (r_name p)
+                    {| l_owner := l_owner pl; l_amount := l_amount pl; l_reg := l_reg pl; l_revoke := l_revoke pl;
+                       l_producer := r_producer p; l_reward := r_reward p; l_pct_block := r_pb p; l_pct_deleg := r_pd p; l_type := l_type pl |})))).
+        { intros st1 E1 E2. unfold JK_pillar, J_pillar, K_pillar. lsimp. rewrite E1, E2.
+          split; [split; [apply tall_tput; [exact HJ1 | exact (HJ1 _ _ Eg)] | exact HJ3]|].
+          split; [apply tnodup_tput; exact Hu|]. split; [exact Hu2|].
+          intros z. unfold liab_pillar. lsimp. rewrite ?E1, ?E2. rewrite tsum_tput by exact Hu. rewrite (told_get _ _ _ _ Eg). cbn [l_amount].
+          specialize (Hb z). unfold liab_pillar in Hb. pose proof (credited_ge lstore a s z Hs).
+          unfold zsel in *. destruct (bytes_eqb ZtsZnn z); destruct (bytes_eqb ZtsQsr z); lia. }
+        destruct (negb (bytes_eqb (r_producer p) (l_producer pl))); apply Hpp; reflexivity.
+      + (* Delegate *)
+        unfold delegate_receive in Em. destruct (delegate_validate name_ok s) as [name| |]; try discriminate.
+        rewrite credited_store in Em.
+        destruct (tget (l_pillars (a_store a)) name); [|discriminate]. destruct (negb _); [discriminate|].
+        inversion Em; subst a' ds. clear Em.
+        apply Hfin; [apply with_store_nonneg; exact Hnc | constructor|].
+        intros a'' Ea. apply apply_all_nil in Ea. subst a''.
+        unfold JK_pillar, J_pillar, K_pillar. lsimp.
+        split; [split; [exact HJ1 | exact HJ3]|]. split; [exact Hu|]. split; [exact Hu2|].
+        intros z. specialize (Hb z). pose proof (credited_ge lstore a s z Hs). unfold liab_pillar in *. lsimp. lia.
+      + (* Undelegate *)
+        unfold undelegate_receive in Em. destruct (undelegate_validate s); try discriminate.
+        rewrite credited_store in Em.
+        destruct (tget (l_deleg (a_store a)) (s_from s)); [|discriminate].
+        inversion Em; subst a' ds. clear Em.
+        apply Hfin; [apply with_store_nonneg; exact Hnc | constructor|].
+        intros a'' Ea. apply apply_all_nil in Ea. subst a''.
+        unfold JK_pillar, J_pillar, K_pillar. lsimp.
+        split; [split; [exact HJ1 | exact HJ3]|]. split; [exact Hu|]. split; [exact Hu2|].
+        intros z. specialize (Hb z). pose proof (credited_ge lstore a s z Hs). unfold liab_pillar in *. lsimp. lia.
+      + (* DepositQsr *)
         unfold pillar_deposit_receive in Em. destruct (deposit_qsr_validate s) eqn:Ev; try discriminate.
-        inversion Em; subst a' ds. clear Em. apply apply_all_nil in Ea. subst a''.
+        inversion Em; subst a' ds. clear Em.
         pose proof (deposit_qsr_validate_zts _ _ Ev) as Hz.
-        unfold K_pillar. cbn [a_store a_bal with_store l_pillars l_dep]. rewrite ?credited_store.
+        apply Hfin; [apply with_store_nonneg; exact Hnc | constructor|].
+        intros a'' Ea. apply apply_all_nil in Ea. subst a''.
+        unfold JK_pillar, J_pillar, K_pillar. lsimp. rewrite ?credited_store.
+        split; [split; [exact HJ1 | apply tall_tput; [exact HJ3 | apply u256_nonneg]]|].
         split; [exact Hu|]. split; [apply tnodup_tput; exact Hu2|].
-        intros z. unfold liab_pillar. cbn [l_pillars l_dep]. rewrite tsum_tput by exact Hu2.
+        intros z. unfold liab_pillar. lsimp. rewrite tsum_tput by exact Hu2.
         change (match tget (l_dep (a_store a)) (s_from s) with Some v => v | None => 0 end)
           with (told (fun v : Z => v) (l_dep (a_store a)) (s_from s)).
         pose proof (told_nonneg (fun v => v) (l_dep (a_store a)) (s_from s) HJ3) as Ho.
@@ -590,17 +742,21 @@ Section BackedPillar.
         specialize (Hb z). unfold liab_pillar in Hb. rewrite credited_eq, Hz.
         destruct Hs as (Hs0 & _). pose proof (u256_le (dep + s_amount s)).
         unfold zsel in *. destruct (bytes_eqb ZtsZnn z); destruct (bytes_eqb ZtsQsr z); lia.
-      + (* withdraw *)
+      + (* WithdrawQsr *)
         unfold pillar_withdraw_receive in Em. destruct (withdraw_qsr_validate s); try discriminate.
         rewrite credited_store in Em.
         destruct (tget (l_dep (a_store a)) (s_from s)) as [v|] eqn:Eg; cbn in Em; [|discriminate].
         destruct (v =? 0); [discriminate|]. inversion Em; subst a' ds. clear Em.
-        inversion Hds as [|? ? Hd1 _]; subst.
-        destruct (apply_all_one lstore dc _ a'' _ Hn' Hd1 Ea) as (Hst & _ & Hg).
-        unfold K_pillar. rewrite Hst. cbn [a_store with_store l_pillars l_dep].
+        pose proof (HJ3 _ _ Eg) as Hv. cbn beta in Hv.
+        assert (Hds : Forall ds_ok [{| d_to := s_from s; d_amount := v; d_zts := ZtsQsr; d_data := [] |}]).
+        { constructor; [|constructor]. split; cbn; [exact Hv | intros _; exact zts_qsr_not_zero]. }
+        apply Hfin; [apply with_store_nonneg; exact Hnc | exact Hds|].
+        intros a'' Ea. destruct (apply_all_one lstore dc _ a'' _ (with_store_nonneg lstore _ _ Hnc) (Forall_inv Hds) Ea) as (Hst & _ & Hg).
+        unfold JK_pillar, J_pillar, K_pillar. rewrite Hst. lsimp.
+        split; [split; [exact HJ1 | apply tall_tdel; exact HJ3]|].
         split; [exact Hu|]. split; [apply tnodup_tdel; exact Hu2|].
-        intros z. rewrite Hg. cbn [a_bal with_store d_zts d_amount].
-        unfold liab_pillar. cbn [l_pillars l_dep]. rewrite tsum_tdel by exact Hu2. rewrite (told_get _ _ _ _ Eg).
+        intros z. rewrite Hg. cbn [d_zts d_amount].
+        unfold liab_pillar. lsimp. rewrite tsum_tdel by exact Hu2. rewrite (told_get _ _ _ _ Eg).
         specialize (Hb z). unfold liab_pillar in Hb. pose proof (credited_ge lstore a s z Hs).
         unfold zsel in *. destruct (bytes_eqb ZtsZnn z); destruct (bytes_eqb ZtsQsr z); lia.
   Qed.
@@ -643,13 +799,13 @@ Section Histories.
     destruct (inbox_never_wedged nstore dc _ (sentinel_lookup lf) q (sentinel_backed_table_ok dc lf He) Hq a Hn (conj HJ HK))
       as (a' & E & _ & _ & _ & HK'). eauto.
   Qed.
-  Theorem pillar_backed_history name_ok P lf q a : 0 <= P -> (forall s, lenv_ok (lf s) /\ c_PillarStake (lf s) = P) -> deliverable q ->
+  Theorem pillar_backed_history name_ok legacy_key P lf q a : 0 <= P < two256 -> (forall s, penv_ok P (lf s)) -> deliverable q ->
     nonneg lstore a -> J_pillar P a -> K_pillar a ->
-    exists a', process_all lstore dc (pillar_lookup name_ok lf) a q = Some a' /\ K_pillar a'.
+    exists a', process_all lstore dc (pillar_lookup name_ok legacy_key lf) a q = Some a' /\ J_pillar P a' /\ K_pillar a'.
   Proof.
     intros HP He Hq Hn HJ HK.
-    destruct (inbox_never_wedged lstore dc _ (pillar_lookup name_ok lf) q (pillar_backed_table_ok dc name_ok P lf HP He) Hq a Hn (conj HJ HK))
-      as (a' & E & _ & _ & _ & HK'). eauto.
+    destruct (inbox_never_wedged lstore dc _ (pillar_lookup name_ok legacy_key lf) q (pillar_table_ok dc name_ok legacy_key P lf HP He) Hq a Hn (conj HJ HK))
+      as (a' & E & _ & _ & HJ' & HK'). eauto.
   Qed.
   Theorem common_backed_history self q a : deliverable q ->
     nonneg cstore a -> J_common a -> K_common a ->
@@ -660,3 +816,89 @@ Section Histories.
       as (a' & E & _ & _ & _ & HK'). eauto.
   Qed.
 End Histories.
+
+(* ================================================================ C10_fused_total *)
+Lemma u256_add_l x y : u256 (u256 x + y) = u256 (x + y).
+Proof. unfold u256. apply Z.add_mod_idemp_l. unfold two256. lia. Qed.
+Lemma u256_add_r x y : u256 (x + u256 y) = u256 (x + y).
+Proof. unfold u256. apply Z.add_mod_idemp_r. unfold two256. lia. Qed.
+Lemma u256_sub_l x y : u256 (u256 x - y) = u256 (x - y).
+Proof. unfold u256. apply Zminus_mod_idemp_l. Qed.
+Lemma u256_0 : u256 0 = 0. Proof. reflexivity. Qed.
+
+Section FusedTotal.
+  Variable dc : dsend -> option Z.
+
+  (* the per-beneficiary total the plasma contract keeps is the sum of that beneficiary's fusion entries, as a
+     uint256 (they are equal outright as long as the sum is below 2^256, which the backing by real balances gives) *)
+  Definition F_plasma (a : cacct pstore) : Prop :=
+    forall b, fused_of (a_store a) b = u256 (entries_of (a_store a) b).
+
+  (* block hashes are unique: the fusion entry of a new Fuse call does not exist yet *)
+  Definition fresh_fusion (a : cacct pstore) (s : send) : Prop :=
+    tget (p_fusions (a_store a)) (s_from s ++ s_hash s) = None.
+
+  Lemma fused_total_step ef a s a' :
+    nonneg pstore a -> J_plasma a -> K_plasma a -> F_plasma a -> fresh_fusion a s ->
+    send_ok s -> dc (refund_of s) = None ->
+    result_acct pstore (generate_receive pstore dc (plasma_lookup ef) a s) = Some a' -> F_plasma a'.
+  Proof.
+    intros Hn HJ (Hu & _) HF Hfresh Hs Hd.
+    apply (vm_step_preserves pstore dc J_plasma F_plasma (plasma_lookup ef) a s (plasma_table_ok dc ef) Hn HJ Hs Hd HF).
+    - intros a1 a2 H1 Hst _. unfold F_plasma in *. rewrite Hst. exact H1.
+    - intros m a1 ds a'' El Em Hn1 Hds Ea. unfold plasma_lookup in El.
+      destruct (bytes_eqb _ Sel_plasma_Fuse); [inversion El; subst m; clear El|
+        destruct (bytes_eqb _ Sel_plasma_CancelFuse); [inversion El; subst m; clear El|discriminate]].
+      + unfold fuse_receive in Em. destruct (fuse_validate (ef s) s) as [ben| |]; try discriminate.
+        inversion Em; subst a1 ds. clear Em. apply apply_all_nil in Ea. subst a''.
+        intros b. unfold fused_of, entries_of. cbn [a_store with_store p_fusions p_fused]. rewrite ?credited_store.
+        rewrite tsum_tput by exact Hu. rewrite (told_none _ _ _ Hfresh). cbn [f_ben f_amount].
+        rewrite tget_tput. specialize (HF b). unfold fused_of, entries_of in HF. unfold zsel in HF.
+        unfold zsel. destruct (bytes_eqb ben b) eqn:Eb.
+        * apply bytes_eqb_eq in Eb. subst b.
+          change (match tget (p_fused (a_store a)) ben with Some v => v | None => 0 end) with (fused_of (a_store a) ben).
+          unfold fused_of. rewrite HF. rewrite u256_add_l. rewrite Z.sub_0_r. rewrite u256_add_r. reflexivity.
+        * rewrite HF. f_equal. lia.
+      + unfold cancel_fuse_receive in Em. destruct (cancel_fuse_validate s) as [id| |]; try discriminate.
+        rewrite credited_store in Em.
+        destruct (tget (p_fusions (a_store a)) (s_from s ++ id)) as [ent|] eqn:Eg; [|discriminate].
+        destruct (e_height (ef s) <? f_exp ent); [discriminate|]. inversion Em; subst a1 ds. clear Em.
+        pose proof (Forall_inv Hds) as Hd1.
+        destruct (apply_all_one pstore dc _ a'' _ Hn1 Hd1 Ea) as (Hst & _ & _).
+        intros b. unfold F_plasma. rewrite Hst. unfold fused_of, entries_of. cbn [a_store with_store p_fusions p_fused].
+        rewrite tsum_tdel by exact Hu. rewrite (told_get _ _ _ _ Eg).
+        pose proof (HF b) as HFb. pose proof (HF (f_ben ent)) as HFe. unfold fused_of, entries_of in HFb, HFe. unfold zsel in HFb, HFe.
+        set (Fe := match tget (p_fused (a_store a)) (f_ben ent) with Some v => v | None => 0 end) in *.
+        unfold zsel. destruct (bytes_eqb (f_ben ent) b) eqn:Eb.
+        * apply bytes_eqb_eq in Eb. subst b.
+          destruct (Fe - f_amount ent =? 0) eqn:Ez.
+          -- rewrite tget_tdel, bytes_eqb_refl. assert (Hz : Fe - f_amount ent = 0) by lia.
+             rewrite <- u256_sub_l. rewrite <- HFe. rewrite Hz. reflexivity.
+          -- rewrite tget_tput, bytes_eqb_refl. rewrite <- (u256_sub_l (tsum _ _)). rewrite <- HFe. reflexivity.
+        * destruct (Fe - f_amount ent =? 0).
+          -- rewrite tget_tdel, Eb. rewrite HFb. f_equal. lia.
+          -- rewrite tget_tput, Eb. rewrite HFb. f_equal. lia.
+  Qed.
+
+  (* histories in which every send has a fresh hash *)
+  Inductive plasma_reach (ef : send -> env) : cacct pstore -> Prop :=
+  | pr_init a : nonneg pstore a -> J_plasma a -> K_plasma a -> F_plasma a -> plasma_reach ef a
+  | pr_step a s a' : plasma_reach ef a -> fresh_fusion a s -> send_ok s -> dc (refund_of s) = None ->
+      result_acct pstore (generate_receive pstore dc (plasma_lookup ef) a s) = Some a' -> plasma_reach ef a'.
+
+  Theorem fused_total ef a : plasma_reach ef a ->
+    nonneg pstore a /\ J_plasma a /\ K_plasma a /\ forall b, fused_of (a_store a) b = u256 (entries_of (a_store a) b).
+  Proof.
+    induction 1 as [a Hn HJ HK HF | a s a' _ IH Hf Hs Hd Hr]; [auto|].
+    destruct IH as (Hn & HJ & HK & HF).
+    pose proof (fused_total_step ef a s a' Hn HJ HK HF Hf Hs Hd Hr) as HF'.
+    destruct (vm_completes pstore dc _ (plasma_lookup ef) a s (plasma_backed_table_ok dc ef) Hn (conj HJ HK) Hs Hd)
+      as [(ar & ds & E & _ & Hn' & HJ' & HK')|(ar & c & E & _ & _ & Hn' & (HJ' & HK') & _)];
+      rewrite E in Hr; cbn in Hr; inversion Hr; subst ar; auto.
+  Qed.
+
+  (* with the sum of a beneficiary's entries below 2^256 (it is at most the contract's QSR balance) the equality is plain *)
+  Corollary fused_total_exact ef a b : plasma_reach ef a -> 0 <= entries_of (a_store a) b < two256 ->
+    fused_of (a_store a) b = entries_of (a_store a) b.
+  Proof. intros H Hb. destruct (fused_total ef a H) as (_ & _ & _ & HF). rewrite HF. apply u256_small. exact Hb. Qed.
+End FusedTotal.
